@@ -242,7 +242,7 @@ def delay_before_push_based(link):
     """True if a delay adapter sits on the source side of a push-based adapter on this link"""
     seen_delay = False
     for ada in link["adapters"]:  # source side first
-        if isinstance(ada, ITimeDelayAdapter) and not isinstance(ada, NoDependencyAdapter):
+        if isinstance(ada, ITimeDelayAdapter):  # DelayFixed, DelayToPull and the dependency-breaking DelayToPush
             seen_delay = True
         elif ada.needs_push and seen_delay:
             return True
@@ -728,7 +728,7 @@ def spec_delay_before_push(topo):
     for l in topo["links"]:
         seen = False
         for k in l.get("ada", []):
-            if k == "dfix" or k.startswith("dpull"):
+            if k == "dfix" or k.startswith("dpull") or k == "dpush":
                 seen = True
             elif k in PUSH_BASED_KINDS and seen:
                 return True
